@@ -10,7 +10,7 @@ ARGS="--locked --workspace --all-targets"
 [ "$MODE" = "--lib-only" ] && ARGS="--lib"
 LD_LIBRARY_PATH=$(rustc +nightly --print sysroot)/lib \
 RUSTFLAGS="-Zmir-opt-level=0 -Awarnings" \
-RUSTC_WORKSPACE_WRAPPER=/verif/driver/target/release/bourse-facts \
+RUSTC_WORKSPACE_WRAPPER="$(cd "$(dirname "$0")/.." && pwd)/driver/target/release/bourse-facts" \
 BOURSE_FACTS_DIR="$OUT" CARGO_TARGET_DIR="$T" CARGO_NET_OFFLINE=true \
 cargo +nightly check --offline $ARGS > "$OUT/cargo.log" 2>&1
 rc=$?
